@@ -624,21 +624,17 @@ class ProgGen:
         elif k == "disable_eom_mode":
             self.chans[op["ch"]]["eom"] = False
         elif k == "config_detuning_map":
+            self.mode = "ising"
+            self._slm_dmm_declare()  # a pending SLM mask claims its DMM first
             name = op["dmm_id"]
             cnt = len([n for n, c in self.chans.items() if c["dmm"] and c["id"] == op["dmm_id"]])
             if cnt:
                 name = f"{op['dmm_id']}_{cnt}"
-            m = op["map"]
-            if m.get("by") == "qubits":
-                ws = list(m["weights"])
-            else:
-                ws = list(m["weights"])
+            ws = list(op["map"]["weights"])
             self.chans[name] = {"id": op["dmm_id"], "spec": self.chspecs[op["dmm_id"]], "local": False,
                                 "dmm": True, "basis": "ground-rydberg", "eom": False,
                                 "targets": list(self.qids), "weights": ws}
             self.used_ids.add(op["dmm_id"])
-            self.mode = "ising"
-            self._slm_dmm_declare()
         elif k == "config_slm_mask":
             self.slm = True
             self.slm_op = op
